@@ -184,3 +184,7 @@ mod tests {
         assert_eq!(err.kind(), std::io::ErrorKind::InvalidInput);
     }
 }
+
+#[cfg(feature = "pendulum_project_ntpd_rs_verif")]
+#[path = "/verif/hooks/ntpd/daemon_sockets.rs"]
+pub mod vh_daemon_sockets;
